@@ -718,11 +718,11 @@ def c01(ctx: Ctx) -> None:
                         and isinstance(lf.func.value, ast.Name) and lf.func.value.id == r.cache and len(lf.args) == 1:
                     return False   # a defaulted probe may return the default
                 return isinstance(lf, ast.Await) and any(c.ast is lf for c in r.CALL)
-            from ..paths import track_names
-            track_names(g, [x.id for x in ast.walk(v) if isinstance(x, ast.Name) and g.scope.binding_scope(x.id) is g.scope])
-            envs = envs_at(g, n)
-            ok = bool(envs) and all(
-                (lambda ls: bool(ls) and all(good(x) for x in ls))(leaves(g, n, v, env=env)) for env in envs)
+            from ..paths import tracking
+            with tracking(g, [x.id for x in ast.walk(v) if isinstance(x, ast.Name) and g.scope.binding_scope(x.id) is g.scope]):
+                envs = envs_at(g, n)
+                ok = bool(envs) and all(
+                    (lambda ls: bool(ls) and all(good(x) for x in ls))(leaves(g, n, v, env=env)) for env in envs)
         ctx.check('C01-R8', f'return {norm(v) if v is not None else "None"}', _loc(g, n), ok,
                   detail_ok='returns a cache probe or the computed value',
                   detail_bad='a caller can receive something that is neither the cached nor the computed value',
